@@ -478,4 +478,118 @@ def openGuardedS (strict : Bool) (limit : Nat) (file : Bytes) : Verdict :=
         | .error e => .err (.hdr e) w
         | .ok info => .ok h info w
 
+
+/-! ### 6. variant `eof`: trees that carry the repair of F14 (patch C19-F14-header-read-beyond-eof)
+
+  ncmpio_hdr_get_NC asks for the size of the file once; every header reader first tests
+  HDR_CHECK_AVAIL(gbp, n): `n > file_size - (offset - (end - pos))` → NC_ENOTNC, i.e. a primitive read
+  that needs bytes beyond the end of the file is refused instead of being served with the zeros
+  hdr_fetch pads a short read with.  The copy loops are guarded by one test for the value and its
+  padding together before the destination is allocated (same error, nothing observable in between). -/
+
+/-- the flat reader with the end-of-file test -/
+def runE {α : Type} : P α → Bytes → Except Err (α × Bytes)
+  | .ret a, s => .ok (a, s)
+  | .fail e, _ => .error e
+  | .u32 k, s => if s.length < 4 then .error .enotnc else runE (k (beNat (ztake 4 s))) (s.drop 4)
+  | .u64 k, s => if s.length < 8 then .error .enotnc else runE (k (beNat (ztake 8 s))) (s.drop 8)
+  | .bytes n k, s => if s.length < n then .error .enotnc else runE (k (ztake n s)) (s.drop n)
+  | .pad p k, s => if s.length < p.val then .error .enotnc else runE k (s.drop p.val)
+
+/-- HDR_REMAIN: bytes of the file not yet consumed, from the window's own bookkeeping
+    (`gbp->file_size - (gbp->offset - (gbp->end - gbp->pos))`, signed in the C) -/
+def hdrRemain (file : Bytes) (chunk : Nat) (w : Win) : Int :=
+  (file.length : Int) - ((w.off : Int) - ((chunk : Int) - (w.pos : Int)))
+
+/-- the window reader with the end-of-file test (the test comes first, then the refill if needed) -/
+def runWE {α : Type} (file : Bytes) (chunk : Nat) : P α → Win → Except Err (α × Win)
+  | .ret a, w => .ok (a, w)
+  | .fail e, _ => .error e
+  | .u32 k, w =>
+    if (4 : Int) > hdrRemain file chunk w then .error .enotnc
+    else let r := getFixedW file chunk 4 w; runWE file chunk (k (beNat r.1)) r.2
+  | .u64 k, w =>
+    if (8 : Int) > hdrRemain file chunk w then .error .enotnc
+    else let r := getFixedW file chunk 8 w; runWE file chunk (k (beNat r.1)) r.2
+  | .bytes n k, w =>
+    if (n : Int) > hdrRemain file chunk w then .error .enotnc
+    else let r := getBytesW file chunk n w []; runWE file chunk (k r.1) r.2
+  | .pad p k, w =>
+    if (p.val : Int) > hdrRemain file chunk w then .error .enotnc
+    else runWE file chunk k (padW file chunk p.val w)
+
+/-- the window state in which a run with the end-of-file test stops -/
+def endWinE {α : Type} (file : Bytes) (chunk : Nat) : P α → Win → Win
+  | .ret _, w => w
+  | .fail _, w => w
+  | .u32 k, w =>
+    if (4 : Int) > hdrRemain file chunk w then w
+    else let r := getFixedW file chunk 4 w; endWinE file chunk (k (beNat r.1)) r.2
+  | .u64 k, w =>
+    if (8 : Int) > hdrRemain file chunk w then w
+    else let r := getFixedW file chunk 8 w; endWinE file chunk (k (beNat r.1)) r.2
+  | .bytes n k, w =>
+    if (n : Int) > hdrRemain file chunk w then w
+    else let r := getBytesW file chunk n w []; endWinE file chunk (k r.1) r.2
+  | .pad p k, w =>
+    if (p.val : Int) > hdrRemain file chunk w then w
+    else endWinE file chunk k (padW file chunk p.val w)
+
+/-- which repairs the tree carries -/
+structure Variant where
+  int63 : Bool      -- B10-3 / B10-5 / B10-6
+  eof   : Bool      -- F14
+  deriving DecidableEq, Repr
+
+def Variant.current : Variant := { int63 := false, eof := false }
+
+/-- ncmpio_hdr_get_NC (whole file in view) of a tree of variant `v` -/
+def decodeWholeVar (v : Variant) (file : Bytes) : Except Err (Hdr × Info) :=
+  match checkMagic (ztake 12 file) with
+  | .error e => .error e
+  | .ok f =>
+    match (if v.eof then runE (getBodyS v.int63 f) (file.drop 4) else run flatR (getBodyS v.int63 f) (file.drop 4)) with
+    | .error e => .error e
+    | .ok (h, _) =>
+      match postPassS v.int63 h with
+      | .error e => .error e
+      | .ok info => .ok (h, info)
+
+/-- ncmpio_hdr_get_NC through the read window, tree of variant `v` -/
+def decodeChunkedVar (v : Variant) (ncpChunk : Nat) (file : Bytes) : Except Err (Hdr × Info) :=
+  let chunk := chunkOf ncpChunk
+  let w0 := fetch file chunk { buf := zeros chunk, pos := 0, off := 0 }
+  match checkMagic (w0.buf.take 12) with
+  | .error e => .error e
+  | .ok f =>
+    match (if v.eof then runWE file chunk (getBodyS v.int63 f) { w0 with pos := 4 }
+           else run (winR file chunk) (getBodyS v.int63 f) { w0 with pos := 4 }) with
+    | .error e => .error e
+    | .ok (h, _) =>
+      match postPassS v.int63 h with
+      | .error e => .error e
+      | .ok info => .ok (h, info)
+
+/-- bytes hdr_fetch asks MPI-IO for, tree of variant `v` -/
+def bytesFetchedV (v : Variant) (ncpChunk : Nat) (file : Bytes) : Nat :=
+  let chunk := chunkOf ncpChunk
+  let w0 := fetch file chunk { buf := zeros chunk, pos := 0, off := 0 }
+  match checkMagic (w0.buf.take 12) with
+  | .error _ => w0.off
+  | .ok f =>
+    if v.eof then (endWinE file chunk (getBodyS v.int63 f) { w0 with pos := 4 }).off
+    else (endWin file chunk (getBodyS v.int63 f) { w0 with pos := 4 }).off
+
+/-- ncmpi_open's verdict for the driver, tree of variant `v`.  With the F14 repair no read goes
+    beyond the end of the file, so the guard of `guardRun` is not needed (and never fires). -/
+def openGuardedV (v : Variant) (limit : Nat) (file : Bytes) : Verdict :=
+  if v.eof then
+    match inqFileFormat file with
+    | .error e => .err e false
+    | .ok _ =>
+      match decodeWholeVar v file with
+      | .error e => .err (.hdr e) false
+      | .ok (h, info) => .ok h info false
+  else openGuardedS v.int63 limit file
+
 end PnVerif.Safety
